@@ -73,13 +73,15 @@ type WorldOpts struct {
 	ATPreamble   string
 	CallbackURI  string
 	AppHost      string
-	ViaServer    bool   // go through server.ExtAuthZFilter.Check (real clock, real generator)
-	RealFactory  bool   // with ViaServer: stores come from oidc.NewSessionStoreFactory(cfg).PreRun(), as in cmd/main.go
-	Binary       bool   // run the built service binary (cmd/main.go) as a child process and talk gRPC to it
-	LiveJWKS     bool   // the key source answers with the provider's CURRENT published keys (models a fetcher that has refreshed)
-	LogoutURI    string // explicit logout redirect URI (also under discovery)
-	TriggerRules []*configv1.TriggerRule
-	AuthURI      string // override (e.g. with its own query)
+	ViaServer    bool // go through server.ExtAuthZFilter.Check (real clock, real generator)
+	RealFactory  bool // with ViaServer: stores come from oidc.NewSessionStoreFactory(cfg).PreRun(), as in cmd/main.go
+	Binary       bool // run the built service binary (cmd/main.go) as a child process and talk gRPC to it
+	// DiscoveryExplicit (with Discovery): the endpoints are spelled out as well and the keys come from jwks_fetcher
+	DiscoveryExplicit bool
+	LiveJWKS          bool   // the key source answers with the provider's CURRENT published keys (models a fetcher that has refreshed)
+	LogoutURI         string // explicit logout redirect URI (also under discovery)
+	TriggerRules      []*configv1.TriggerRule
+	AuthURI           string // override (e.g. with its own query)
 	// CfgHook may replace the filter configuration (e.g. after passing it through the real loader).
 	// Returning nil abandons the case as out of domain.
 	CfgHook func(w *World, cfg *oidcv1.OIDCConfig) *oidcv1.OIDCConfig
@@ -161,6 +163,10 @@ func NewWorld(c *Case, o WorldOpts) *World {
 	if o.Discovery {
 		cfg.ConfigurationUri = w.IdP.DiscoveryURL()
 		cfg.JwksConfig = &oidcv1.OIDCConfig_Jwks{Jwks: JWKS(w.IdP.Keys)}
+		if o.DiscoveryExplicit {
+			cfg.AuthorizationUri, cfg.TokenUri = w.IdP.AuthURL(), w.IdP.TokenURL()
+			cfg.JwksConfig = &oidcv1.OIDCConfig_JwksFetcher{JwksFetcher: &oidcv1.OIDCConfig_JwksFetcherConfig{JwksUri: w.IdP.JWKSURL(), PeriodicFetchIntervalSec: 60}}
+		}
 	} else {
 		cfg.AuthorizationUri = w.IdP.AuthURL()
 		if o.AuthURI != "" {
@@ -378,6 +384,29 @@ func ParseResp(r *Resp, resp *envoy.CheckResponse) {
 	} else if o := resp.GetOkResponse(); o != nil {
 		r.Headers = hvs(o.GetHeaders())
 	}
+}
+
+// ChangedSinceReturn re-reads the response message the service handed back and reports the first header that is no
+// longer what it was when the check returned ("" if the message is unchanged). The message belongs to the caller
+// from then on: gRPC serialises it while other checks are already running.
+func (r *Resp) ChangedSinceReturn() string {
+	if r.Raw == nil {
+		return ""
+	}
+	now := &Resp{}
+	ParseResp(now, r.Raw)
+	if len(now.Headers) != len(r.Headers) {
+		return fmt.Sprintf("%d headers at return, %d now", len(r.Headers), len(now.Headers))
+	}
+	for i := range now.Headers {
+		if now.Headers[i] != r.Headers[i] {
+			return fmt.Sprintf("header %q was %q at return and is %q now", r.Headers[i].K, r.Headers[i].V, now.Headers[i].V)
+		}
+	}
+	if now.Body != r.Body || now.Code != r.Code || now.HTTPStatus != r.HTTPStatus {
+		return "status or body changed"
+	}
+	return ""
 }
 
 // Get returns the values of a header (case-insensitive name).
